@@ -35,9 +35,12 @@ def validate_unique_trace(ctx, path, stage, what):
             raise Infra("trace rejection not reproducible")
         if tv.violated != "invariant:SketchCanonical":
             raise Infra("UniqueTrace failed with %s (machinery): %s" % (tv.violated, tv.cex[:500]))
-        # find the offending event: the last state printed has l = index + 1
-        m = re.findall(r"l = (\d+)", tv.cex)
-        line = int(m[-1]) - 1 if m else 0
+        # the specification names the offending event
+        line = 0
+        for pl in tv.printed:
+            m = re.match(r'^<<"SKETCH_NOT_CANONICAL_AT_LINE", (\d+)>>', pl)
+            if m:
+                line = int(m.group(1))
         ev = ""
         try:
             ev = open(keep).read().splitlines()[line - 1]
@@ -61,15 +64,33 @@ def validate_unique_trace(ctx, path, stage, what):
 
 
 def run(ctx):
+    import os
+    stages = set((os.environ.get("VERIF_C04_STAGES") or "merge,unique").split(","))  # development aid
+    if "merge" in stages:
+        run_merge(ctx)
+    if "unique" in stages:
+        run_unique(ctx)
+    ctx.ev.assume("value aggregates: integer-exact domain (sums in units of 1/6); floating-point rounding of sums is "
+                  "outside the model, as the property states")
+    ctx.ev.assume("the order in which Merge walks the right-hand hash table is a storage detail; the model walks it in "
+                  "ascending order, the real code in table order - both are validated against the order-free Canon")
+    ctx.ev.assume("API rows merged by tsValues.merge carry values and a non-empty host (rows are written by the "
+                  "aggregator with the sender's host)")
+
+
+def run_merge(ctx):
     th = ctx.thorough
     rnd = random.Random(ctx.seed)
     # ---------------------------------------------------------------- value aggregates and hosts
-    mc = ctx.tlc("RowMergeMC", "RowMerge_mc_big.cfg" if th else "RowMerge_mc.cfg", timeout=3000 if th else 600,
-                 coverage=th, constants={"MaxLeaves": 4 if th else 3, "shapes": 23 if th else 10, "DEN": 6})
-    ctx.require_model_ok(mc, "RowMerge invariants")
-    beh = ctx.tlc("RowMergeMC", "RowMerge_beh_big.cfg" if th else "RowMerge_beh.cfg", timeout=3000 if th else 600,
-                  name="merge behaviours (multiset, order, tree)")
-    ctx.require_model_ok(beh, "merge behaviour export")
+    inv = "MergeCanonical MergeHosts TsCanonical"
+    if th:
+        mc = ctx.tlc("RowMergeMC", "RowMerge_mc_big.cfg", timeout=3000, coverage=True,
+                     constants={"MaxLeaves": 4, "shapes": 23, "DEN": 6, "invariants": inv})
+        ctx.require_model_ok(mc, "RowMerge invariants")
+    beh = ctx.tlc("RowMergeMC", "RowMerge_beh_big.cfg" if th else "RowMerge_beh.cfg", timeout=3000 if th else 900,
+                  name="MC + merge behaviours (multiset, order, tree)",
+                  constants={"MaxLeaves": 4 if th else 3, "shapes": 6 if th else 10, "DEN": 6, "invariants": inv})
+    ctx.require_model_ok(beh, "RowMerge invariants / behaviour export")
     tab = shape_table(beh)
     bs = beh.behaviours
     rnd.shuffle(bs)
@@ -96,6 +117,10 @@ def run(ctx):
     ok_ts = validate_unique_trace(ctx, res2["files"][0], "sketches merged by tsValues.merge", "api")
     ctx.ev.add_impl("tsValues.merge behaviours reproduced", res2["replayed"], steps=res2["steps"],
                     sketch_events=res2.get("consts", {}).get("traceEvents", 0) if ok_ts else 0)
+
+
+def run_unique(ctx):
+    th = ctx.thorough
     # ---------------------------------------------------------------- unique sketch
     um = ctx.tlc("Unique", "Unique_mc_big.cfg" if th else "Unique_mc.cfg", timeout=3000 if th else 600, coverage=th,
                  constants={"MAXSIZE": 4 if th else 2, "NSk": 3, "MaxIns": 6 if th else 4, "MaxMrg": 3 if th else 2})
@@ -124,9 +149,3 @@ def run(ctx):
                     res3["replayed"] if ok else 0, steps=res3["steps"], distinct_classes=res3.get("distinct", 0))
     for s in res3.get("samples", [])[:2]:
         ctx.ev.sample(s)
-    ctx.ev.assume("value aggregates: integer-exact domain (sums in units of 1/6); floating-point rounding of sums is "
-                  "outside the model, as the property states")
-    ctx.ev.assume("the order in which Merge walks the right-hand hash table is a storage detail; the model walks it in "
-                  "ascending order, the real code in table order - both are validated against the order-free Canon")
-    ctx.ev.assume("API rows merged by tsValues.merge carry values and a non-empty host (rows are written by the "
-                  "aggregator with the sender's host)")
